@@ -367,13 +367,6 @@ func init() {
 	reg("runtime.KeepAlive", func(fr *frame, args []value) value { return nil })
 	reg("runtime.SetFinalizer", func(fr *frame, args []value) value { return nil })
 
-	// ---- time
-	reg("time.Sleep", func(fr *frame, args []value) value {
-		fr.g.state = gRunnable
-		E.yield(fr.g)
-		return nil
-	})
-
 	// ---- math
 	reg("math.Float64bits", func(fr *frame, args []value) value {
 		t := args[0].(*Term)
